@@ -100,6 +100,23 @@ def systematic(flat_docs):
             for f in ["starts-with", "contains", "substring-before", "substring-after", "concat"]:
                 out.append(fn(f, s, s2))
         out.append(fn("translate", s, lit("abt-"), lit("AB")))
+    # nested positional predicates: an inner path with its own position()/last() predicate, evaluated while an outer
+    # predicate of another node list is in progress, followed (or preceded) by the outer position()/last()
+    P_ = lambda *steps, **kw: path(list(steps), **kw)
+    inner_paths = [P_(step("parent", T_NODE), step("child", T_ANY)), P_(step("self", T_ANY, abbr=False)), P_(step("descendant-or-self", T_ANY, abbr=False)),
+                   P_(step("preceding-sibling", T_ANY, abbr=False)), P_(step("ancestor-or-self", T_ANY, abbr=False)), P_(step("following-sibling", T_NODE, abbr=False))]
+    inner_preds = [bin_("=", fn("position"), fn("last")), bin_("=", fn("position"), num(1)), bin_(">", fn("position"), num(1))]
+    outer_tests = [bin_("=", fn("position"), num(2)), bin_("=", fn("position"), fn("last")), bin_(">", fn("position"), num(1)), bin_("<", fn("position"), fn("last"))]
+    for ax in ["descendant", "child", "following-sibling", "ancestor", "preceding"]:
+        for ip in inner_paths:
+            for ipr in inner_preds:
+                inner = dict(ip, steps=ip["steps"][:-1] + [dict(ip["steps"][-1], preds=[ipr])])
+                for ot in outer_tests:
+                    out.append(P_(step(ax, T_ANY, bin_("and", inner, ot), abbr=False)))
+                    out.append(P_(step(ax, T_ANY, bin_("and", ot, inner), abbr=False)))
+                    out.append(P_(step(ax, T_ANY, inner, ot, abbr=False)))
+                out.append(filt(P_(DOS, step("child", T_ANY), abs_=True), bin_("and", inner, bin_("=", fn("position"), num(3)))))
+                out.append(fn("count", P_(step(ax, T_ANY, bin_("and", inner, bin_(">", fn("position"), num(1))), abbr=False))))
     # white space inside strings (4.2: #x20 #x9 #xD #xA), one irregularity at a time
     for ws in ["a\tb", "a\nb", "a\rb", "\ta b", "a b\n", "a \tb", "a\t\tb", "\t", "a\u00a0b"]:
         out.append(fn("normalize-space", lit(ws)))
@@ -378,7 +395,8 @@ def run(res, tier, seed):
     res.cov["distinct_nontrivial"] = len({vlib.canon_hash([e["text"], e["doc"], e["ctx"], e["pos"], e["size"], e["vars"]]) for e in events if nontrivial(e)})
     res.cov["rule"] = ("systematic families (12 axes x node tests x positional predicates from sampled context nodes; comparison matrix of all "
                        "type pairs x 6 operators; arithmetic precedence/associativity pairs; core-function tables; the value-object reuse family "
-                       "(a op b) op c over string/number literals and computed strings) + seeded random typed "
+                       "(a op b) op c over string/number literals and computed strings; nested positional predicates (inner path with its own position() predicate inside an outer "
+                       "positional predicate); string functions with non-string arguments; interior white space) + seeded random typed "
                        "expressions of depth 1-3 over %d documents; non-trivial = result is not an error, empty node-set, false, '' or NaN; "
                        "distinct by (text, document, context, position, size, variables)" % len(docs))
     for ev in events[::max(1, len(events) // 4)][:4]:
